@@ -109,3 +109,11 @@ def p2(ctx):
 
 
 RULES = [o1, o2, p2]
+
+
+@rule("LC", doc="loop-exit census: every iterator-driven loop of the library runs to exhaustion, except a frozen per-file reviewed set of search / error-propagation loops")
+def lc(ctx):
+    C.loop_census(ctx, ctx.lib())
+
+
+RULES.append(lc)
